@@ -78,37 +78,37 @@ Fixpoint re_lookup (tb : retab) (pat : str) : option (list str) :=
 
 Record fconf := mkFConf { fc_type : str; fc_users : list str; fc_groups : list str }.
 
-Record filter := mkFilter {
+Record ufilter := mkFilter {
   f_allow : bool; f_empty : bool;
   f_users : list str; f_groups : list str;
   f_uexp : option (list str);      (* compiled user expression = the subjects it matches *)
   f_gexp : option (list str) }.
 
-Definition new_filter (pinned : bool) (tb : retab) (c : fconf) : filter :=
+Definition new_filter (pinned : bool) (tb : retab) (c : fconf) : ufilter :=
   let allow := if pinned then negb (str_eqb (fc_type c) s_deny) else negb (eq_fold (fc_type c) s_deny) in
   let '(uexp, ulist, e1) :=
     match fc_users c with
     | [] => (None, [], true)
     | [u] => if special_re u then (re_lookup tb u, [], false)
              else if conf_user_re u then (None, [u], false) else (None, [], false)
-    | l => (None, List.filter conf_user_re l, false)
+    | l => (None, filter conf_user_re l, false)
     end in
   let '(gexp, glist, e2) :=
     match fc_groups c with
     | [] => (None, [], true)
     | [g] => if special_re g then (re_lookup tb g, [], false)
              else if conf_group_re g then (None, [g], false) else (None, [], false)
-    | l => (None, List.filter conf_group_re l, false)
+    | l => (None, filter conf_group_re l, false)
     end in
   mkFilter allow (e1 && e2) ulist glist uexp gexp.
 
-Definition filter_user (f : filter) (u : str) : bool :=
+Definition filter_user (f : ufilter) (u : str) : bool :=
   match f_uexp f with Some m => mem_str u m | None => mem_str u (f_users f) end.
-Definition filter_group (f : filter) (g : str) : bool :=
+Definition filter_group (f : ufilter) (g : str) : bool :=
   match f_gexp f with Some m => mem_str g m | None => mem_str g (f_groups f) end.
 
 (* Filter.allowUser *)
-Definition allow_user (f : filter) (a : app) : bool :=
+Definition allow_user (f : ufilter) (a : app) : bool :=
   if f_empty f then f_allow f
   else if filter_user f (ap_user a) then f_allow f
   else if existsb (filter_group f) (ap_groups a) then f_allow f
@@ -118,7 +118,7 @@ Definition allow_user (f : filter) (a : app) : bool :=
 Inductive rkind :=
 | KProvided | KUser | KTag (tag : str) | KFixed (q : str) (qualified : bool) | KRecovery | KTest.
 
-Inductive rule := Rule (k : rkind) (create : bool) (f : filter) (parent : option rule).
+Inductive rule := Rule (k : rkind) (create : bool) (f : ufilter) (parent : option rule).
 
 (* configs.PlacementRule *)
 Inductive rconf := RConf (name : str) (create : bool) (f : fconf) (value : str) (parent : option rconf).
